@@ -42,6 +42,9 @@ pub enum Step {
     ReloadWhileHeld(u8),
     /// two taps of lrld right after each other
     ReloadTwice,
+    /// request while another layer is active: 0 the layer-while-held key is held (released
+    /// afterwards), 1 after a layer-switch (switched back afterwards if the reload failed)
+    ReloadOnOtherLayer(u8, u8),
     /// something going on right before the request: 0 layer key tapped, 1 one-shot tapped, 2 macro started
     Busy(u8),
     Probe,
@@ -59,7 +62,7 @@ fn valid_text(v: u8) -> String {
     let v = v % 4;
     let (o1, o2, o3) = [("x", "1", "m"), ("y", "2", "n"), ("z", "3", "o"), ("w", "4", "p")][v as usize];
     format!(
-        "(defcfg log-layer-changes no)\n(defsrc a b c d e f g h i j k)\n(deflayer base{v} {o1} (layer-while-held nav) (one-shot 60 lsft) lrld lrld-next lrld-prev (lrld-num 1) (lrld-num 2) (lrld-num 3) (macro {o3} 20 {o3}) S-{o1})\n(deflayer nav {o2} _ _ _ _ _ _ _ _ _ _)\n"
+        "(defcfg log-layer-changes no)\n(defsrc a b c d e f g h i j k l)\n(deflayer base{v} {o1} (layer-while-held nav) (one-shot 60 lsft) lrld lrld-next lrld-prev (lrld-num 1) (lrld-num 2) (lrld-num 3) (macro {o3} 20 {o3}) S-{o1} (layer-switch nav))\n(deflayer nav {o2} _ _ lrld lrld-next lrld-prev (lrld-num 1) (lrld-num 2) (lrld-num 3) _ _ (layer-switch base{v}))\n"
     )
 }
 
@@ -93,6 +96,7 @@ impl Case for LCase {
                 Step::Reload(k) => json!({"reload": k}),
                 Step::ReloadWhileHeld(k) => json!({"reload-while-held": k}),
                 Step::ReloadTwice => json!("reload-twice"),
+                Step::ReloadOnOtherLayer(how, k) => json!({"reload-on-other-layer": [how, k]}),
                 Step::Busy(k) => json!({"busy": k}),
                 Step::Probe => json!("probe"),
             }).collect::<Vec<_>>(),
@@ -116,6 +120,7 @@ impl Case for LCase {
                 "reload" => Step::Reload(val.as_u64()? as u8),
                 "reload-while-held" => Step::ReloadWhileHeld(val.as_u64()? as u8),
                 "busy" => Step::Busy(val.as_u64()? as u8),
+                "reload-on-other-layer" => Step::ReloadOnOtherLayer(val[0].as_u64()? as u8, val[1].as_u64()? as u8),
                 _ => return None,
             });
         }
@@ -433,6 +438,53 @@ fn judge_once(c: &LCase, mult: u64) -> Verdict {
                     _ => "lrld-num",
                 });
             }
+            Step::ReloadOnOtherLayer(how, kk) => {
+                let kk = if relative_after_failure && matches!(kk % 6, 1 | 2) { 3 + (*kk % 3) } else { *kk };
+                let (ni, res) = request(kk, idx, &files);
+                l.wait(30);
+                l.notifications();
+                if how % 2 == 0 {
+                    l.send("b", true);
+                } else {
+                    l.tap("l");
+                }
+                l.wait(30);
+                l.notifications();
+                l.tap(reload_key(kk));
+                l.wait(40);
+                let notes = reload_notes(&l.notifications());
+                log.push(format!("reload {} on layer nav ({}) (file {ni}: {:?})", reload_key(kk), if how % 2 == 0 { "held" } else { "switched" }, files[ni]));
+                idx = ni;
+                match res {
+                    Some(nv) => {
+                        active = nv;
+                        relative_after_failure = false;
+                        // the first layer of the new configuration is the active one
+                        let want = vec![format!("reload:cfg{ni}.kbd"), format!("layer:base{}", nv % 4)];
+                        if notes != want && fail.is_none() {
+                            fail = Some(("reload:notifications-differ".into(), format!("requested on layer nav: expected {want:?}, got {notes:?}")));
+                        }
+                        if how % 2 == 0 {
+                            l.send("b", false);
+                        }
+                        v.classes.push("reload-succeeded");
+                    }
+                    None => {
+                        relative_after_failure = true;
+                        if !notes.is_empty() && fail.is_none() {
+                            fail = Some(("reload:notification-after-failed-reload".into(), format!("got {notes:?}")));
+                        }
+                        // back to the first layer of the old configuration
+                        if how % 2 == 0 {
+                            l.send("b", false);
+                        } else {
+                            l.tap("l");
+                        }
+                    }
+                }
+                l.wait(30);
+                v.classes.push("requested-on-other-layer");
+            }
             Step::ReloadTwice => {
                 let (ni, res) = request(0, idx, &files);
                 l.notifications();
@@ -500,7 +552,7 @@ impl TypedProp for C15 {
     fn info(&self) -> PropInfo {
         PropInfo {
             level: "exploration",
-            rule: "three configuration files on the command line; contents from a family of four valid configurations (same defsrc, different outputs and first-layer names; layer-while-held, one-shot, a macro, an output chord, lrld / lrld-next / lrld-prev / lrld-num 1-3 keys) or broken syntax / rejected by the parser / missing / a directory. Histories of 2-9 steps: rewrite a file, request a reload (plain, next, prev, num), request it while a key's output is held down (and probe notifications before the release), request it twice back-to-back, make kanata busy right before (layer tap, one-shot, running macro), probe. Run on the real Kanata::start_processing_loop thread with real-time events 8 ms apart and simulated output. Oracle: a reference model of the active content (unchanged by a failed reload, replaced by a successful one, not before the held key's output is released); every probe (tap, layer-held tap, output chord) must equal what a freshly started deterministic instance of the active content answers; a successful reload sends exactly ConfigFileReload(file) then LayerChange(first layer), a failed one nothing; nothing stays down; no panic in the processing thread. Non-trivial: a failed reload or a request while a key is held occurs. Distinct: hash of the case.".into(),
+            rule: "three configuration files on the command line; contents from a family of four valid configurations (same defsrc, different outputs and first-layer names; layer-while-held, one-shot, a macro, an output chord, lrld / lrld-next / lrld-prev / lrld-num 1-3 keys) or broken syntax / rejected by the parser / missing / a directory. Histories of 2-9 steps: rewrite a file, request a reload (plain, next, prev, num), request it while a key's output is held down (and probe notifications before the release), request it twice back-to-back, request it while another layer is active (layer-while-held key held, or after a layer-switch), make kanata busy right before (layer tap, one-shot, running macro), probe. Run on the real Kanata::start_processing_loop thread with real-time events 8 ms apart and simulated output. Oracle: a reference model of the active content (unchanged by a failed reload, replaced by a successful one, not before the held key's output is released); every probe (tap, layer-held tap, output chord) must equal what a freshly started deterministic instance of the active content answers; a successful reload sends exactly ConfigFileReload(file) then LayerChange(first layer), a failed one nothing; nothing stays down; no panic in the processing thread. Non-trivial: a failed reload or a request while a key is held occurs. Distinct: hash of the case.".into(),
             assumptions: vec![
                 "only time-insensitive behaviour is compared (real-time thread): sequences of key events, not their times".into(),
                 "after a failed lrld-next / lrld-prev the following requests are absolute (lrld-num): the statement does not say whether the file index advanced".into(),
@@ -517,7 +569,7 @@ impl TypedProp for C15 {
             },
             exhaustive: false,
             distinct_by_construction: false,
-            required_classes: vec!["reload-succeeded", "failed:broken-syntax", "failed:rejected", "failed:missing", "failed:unreadable", "requested-while-key-held", "back-to-back", "lrld", "lrld-next", "lrld-prev", "lrld-num"],
+            required_classes: vec!["reload-succeeded", "failed:broken-syntax", "failed:rejected", "failed:missing", "failed:unreadable", "requested-while-key-held", "requested-on-other-layer", "back-to-back", "lrld", "lrld-next", "lrld-prev", "lrld-num"],
             hang_secs: 120,
         }
     }
@@ -537,6 +589,7 @@ impl TypedProp for C15 {
             4 => (0u8..6).prop_map(Step::Reload),
             2 => (0u8..6).prop_map(Step::ReloadWhileHeld),
             1 => Just(Step::ReloadTwice),
+            2 => (0u8..2, 0u8..6).prop_map(|(h, k)| Step::ReloadOnOtherLayer(h, k)),
             1 => (0u8..3).prop_map(Step::Busy),
             2 => Just(Step::Probe),
         ];
@@ -550,5 +603,9 @@ impl TypedProp for C15 {
     }
     fn judge(&self, case: &LCase) -> Verdict {
         judge_case(case)
+    }
+    // every evaluation is a real-time run of about a second (four with the confirmation run)
+    fn max_shrink_steps(&self) -> usize {
+        40
     }
 }
